@@ -217,6 +217,20 @@ CLAIMS = {
         note=PYVC_TRUST + "; POSIX lockf (per-process) and asyncio.Lock contracts assumed; lexical enclosure in "
              "`async with` decides the call-site obligations (backend ast-dominance); level other because the "
              "history statement is composed by hand"),
+    "C16": dict(
+        engine="pyvc", category="other", design_ref="DESIGN.md section 4 C16",
+        technique="contract-based deductive verification: the real source of Terminal.sdo_read / sdo_write against "
+                  "the assumed contract of a protocol-conformant SDO server behind mbx_send / mbx_recv (ghost "
+                  "server state, loop invariant over segments, region predicates for recorded findings), z3",
+        text="Upload: for values of any length, any mailbox sizes, any split chosen by the server, with or without "
+             "subindex and with unrelated mail before the response, sdo_read returns exactly the terminal's value "
+             "bytes; segment toggles alternate from 0 (obligation at every request), every message fits the mailbox "
+             "and is sent under the mailbox lock - any number of segments through the loop invariant. Download: the "
+             "expedited transfer (1-4 bytes with subindex) reaches the server byte for byte. Normal and segmented "
+             "downloads violate the property on the real code (two recorded findings, witnesses replayed against an "
+             "executable conformant server); inside those regions nothing is claimed.",
+        note=PYVC_TRUST + "; SDO server contract written from ETG.1000.6; two recorded findings (regions of "
+             "sdo_write)"),
     "C18": dict(
         engine="pyvc", category="other", design_ref="DESIGN.md section 4 C18",
         technique="contract-based deductive verification: sidecar contracts on the real source of "
